@@ -1,490 +1,17 @@
-"""C07 -- manifold axioms for every Manifold model (structural necessary conditions F1..F4)."""
-import itertools
-import re
-from fractions import Fraction
+"""C07 -- manifold axioms for every Manifold model (structural clauses, engine M).
 
-import astlib as A
-import fe
-import pe
-from report import Finding
-
-
-def in_file(d, suffix):
-    return d.file and d.file.startswith(fe.INCLUDE) and d.file.endswith(suffix)
-
-
-def check_f1(rep, idx):
-    rep.rule("F1", "SubManifold re-created from its own parts binds each part to the constructor parameter that initialises it", minimum=2)
-    ctors = [d for d in idx if d.kind == "CXXConstructorDecl" and d.pattern and in_file(d, "submanifold.hpp")]
-    main = None
-    for d in ctors:
-        pm = {}
-        for c in A.kids(d.node):
-            if c.get("kind") == "CXXCtorInitializer" and c.get("anyInit"):
-                refs = A.refs(A.to_expr(A.kids(c)[0])) if A.kids(c) else set()
-                for p in A.params(d.node):
-                    if p.get("name") in refs:
-                        pm[p.get("name")] = c["anyInit"]["name"]
-        if len(pm) == 3:
-            main = (d, [pm.get(p.get("name")) for p in A.params(d.node)])
-    if main is None:
-        rep.broke("F1: three-parameter SubManifold constructor with member initialisers not found")
-        return
-    order = main[1]          # field initialised by constructor parameter k
-    acc = {}                 # accessor / field name -> field
-    for d in idx:
-        if d.kind == "CXXMethodDecl" and d.pattern and in_file(d, "submanifold.hpp") and d.qname.startswith("SubManifold::") and A.body(d.node) is not None:
-            b = A.kids(A.body(d.node))
-            if len(b) == 1 and b[0].get("kind") == "ReturnStmt":
-                e = A.to_expr(A.kids(b[0])[0])
-                if e[0] == "member" and e[1] == ("this",) and e[2] in order:
-                    acc[d.qname.split("::")[-1]] = e[2]
-    for f in order:
-        acc[f] = f
-    if len(set(acc.values())) < 3:
-        rep.broke("F1: accessors of SubManifold not recognised (%s)" % acc)
-        return
-
-    def field_of(e):
-        """the single field/accessor an argument expression is derived from"""
-        hits = set()
-
-        def rec(x):
-            if isinstance(x, tuple):
-                if x and x[0] == "member" and x[2] in acc and x[2] in order:
-                    hits.add(acc[x[2]])
-                if x and x[0] == "mcall" and x[2] in acc and not x[4]:
-                    hits.add(acc[x[2]])
-                    return
-                if x and x[0] == "ref" and x[1] in order:
-                    hits.add(x[1])
-                for y in x[1:]:
-                    rec(y)
-            elif isinstance(x, list):
-                for y in x:
-                    rec(y)
-        rec(e)
-        return hits
-
-    n = 0
-    for d in idx:
-        if d.kind not in A.FUNCS or not d.pattern or not in_file(d, "submanifold.hpp") or A.body(d.node) is None:
-            continue
-        for x in A.walk(A.body(d.node)):
-            if x.get("kind") in ("CXXUnresolvedConstructExpr", "CXXTemporaryObjectExpr", "CXXConstructExpr", "CXXFunctionalCastExpr"):
-                ty = (x.get("typeAsWritten", {}) or x.get("type", {})).get("qualType", "")
-                if not re.search(r"SubManifold|CastT<NewScalar>|PlainObject", ty):
-                    continue
-                args = [A.to_expr(c) for c in A.kids(x)]
-                if len(args) != 3:
-                    continue
-                fl, ln = A.loc(x)
-                fields = [field_of(a) for a in args]
-                ok = all(len(fs) == 1 and next(iter(fs)) == order[k] for k, fs in enumerate(fields))
-                n += 1
-                rep.instance("F1", d.qname, "construct@%s" % ty[:30], ok=ok,
-                             sample={"file": fe.rel(fl), "line": ln, "arguments": [A.show(a)[:50] for a in args], "constructor_fields": order})
-                if not ok:
-                    bad = [(k, sorted(fs)) for k, fs in enumerate(fields) if not (len(fs) == 1 and next(iter(fs)) == order[k])]
-                    rep.violation(Finding("F1", d.qname, "construct",
-                                          "SubManifold is rebuilt with argument %d derived from %s, but constructor parameter %d initialises %s "
-                                          "(parameter order is %s)" % (bad[0][0], bad[0][1], bad[0][0], order[bad[0][0]], order), fl, ln))
-    if n < 2:
-        rep.broke("F1: only %d re-construction site(s) of SubManifold found (cast and rplus confirmed by hand)" % n)
-
-
-def check_f2(rep, idx):
-    rep.rule("F2", "SubManifold scatter (rplus) / gather (rminus) loops implement the order-preserving bijection free dims <-> reduced indices", minimum=2)
-    loops = {}
-    for nm in ("rplus", "rminus"):
-        ds = [d for d in idx if d.kind in A.FUNCS and d.pattern and d.qname == "SubManifold::" + nm and A.body(d.node) is not None]
-        if len(ds) != 1:
-            rep.broke("F2: SubManifold::%s not found" % nm)
-            return
-        fl = [x for x in A.walk(A.body(ds[0].node)) if x.get("kind") == "ForStmt"]
-        if len(fl) != 1:
-            rep.broke("F2: SubManifold::%s has %d loops (1 confirmed)" % (nm, len(fl)))
-            return
-        loops[nm] = (ds[0], fl[0])
-    for nm, (d, loop) in loops.items():
-        # identify the arrays touched in the loop: full-range vector (indexed by the bounded loop variable), reduced vector
-        names = set()
-        for x in A.walk(loop):
-            if x.get("kind") == "CallExpr":
-                cn = A.callee_name(A.kids(x)[0])
-                if cn and len(A.kids(x)) == 2:
-                    names.add(cn)
-        names = sorted(names)
-        bad = None
-        cases = 0
-        try:
-            for n in range(0, 6):
-                for r in range(0, n + 1):
-                    for fixed in itertools.combinations(range(n), r):
-                        free = [i for i in range(n) if i not in fixed]
-                        arrays = {"this.m_fixed_dims": [Fraction(v) for v in fixed]}
-                        full = [Fraction(100 + i) for i in range(n)]
-                        red = [Fraction(200 + t) for t in range(len(free))]
-                        # every element-accessed local is either the full-range or the reduced vector: try both roles by size
-                        ex_arr = dict(arrays)
-                        if nm == "rplus":
-                            ex_arr["m_calc"] = [Fraction(0)] * n
-                            ex_arr["a"] = list(red)
-                            sizes = {"m_calc": n}
-                        else:
-                            ex_arr["m_calc"] = list(full)
-                            ex_arr["ret"] = [Fraction(0)] * len(free)
-                            sizes = {"m_calc": n}
-                        missing = [x for x in names if x not in ex_arr]
-                        if missing:
-                            raise pe.PEError("unknown vector(s) %s in the loop of %s; re-confirm the rule" % (missing, nm))
-                        m = pe.Exec({}, ex_arr, sizes={"m_calc": n, "this.m_fixed_dims": len(fixed)})
-                        cases += 1
-                        try:
-                            m.run(loop)
-                        except pe.PEIndexError as ie:
-                            if bad is None:
-                                bad = (n, fixed, ["<%s>" % ie], ["in-range accesses only"])
-                            continue
-                        if nm == "rplus":
-                            want = [Fraction(0)] * n
-                            for t, i in enumerate(free):
-                                want[i] = red[t]
-                            got = ex_arr["m_calc"]
-                        else:
-                            want = [full[i] for i in free]
-                            got = ex_arr["ret"]
-                        if got != want and bad is None:
-                            bad = (n, fixed, [str(v) for v in got], [str(v) for v in want])
-        except pe.PEError as ex:
-            rep.broke("F2: cannot abstractly execute the %s loop: %s" % (nm, ex))
-            continue
-        fl, ln = A.loc(loop)
-        rep.instance("F2", "SubManifold::" + nm, "loop", ok=bad is None, sample={"file": fe.rel(fl), "line": ln, "subsets_checked": cases})
-        if bad:
-            rep.violation(Finding("F2", "SubManifold::" + nm, "loop",
-                                  "for a %d-dof manifold with fixed dimensions %s the %s loop produces %s, expected %s "
-                                  "(free directions must map to consecutive reduced coordinates in order, fixed ones stay 0 / are skipped)"
-                                  % (bad[0], list(bad[1]), "scatter" if nm == "rplus" else "gather", bad[2], bad[3]), fl, ln))
-    # dof() = dof(m0) - #fixed
-    ds = [d for d in idx if d.kind in A.FUNCS and d.pattern and d.qname == "SubManifold::dof" and A.body(d.node) is not None]
-    if ds:
-        t = A.ntext(A.body(ds[0].node))
-        ok = re.search(r"return::smooth::dof\(m_m0\)-m_fixed_dims\.size\(\);", t) is not None or re.search(r"dof\(m_m\)-m_fixed_dims\.size\(\)", t) is not None
-        rep.instance("F2", "SubManifold::dof", "count", ok=ok, sample={"body": t[:80]})
-        if not ok:
-            rep.violation(Finding("F2", "SubManifold::dof", "count", "dof() is not dof(embedded value) - number of fixed dimensions: %s" % t[:80], ds[0].file, ds[0].line))
-
-
-def check_f3(rep, idx):
-    rep.rule("F3", "std::vector<M> model: each element consumes/produces segment(cursor, dof_i) and the cursor advances by the same dof_i", minimum=2)
-    for nm in ("rplus", "rminus"):
-        ds = [d for d in idx if d.kind in A.FUNCS and d.pattern and in_file(d, "manifolds/vector.hpp") and d.qname.split("::")[-1] == nm and A.body(d.node) is not None]
-        if len(ds) != 1:
-            rep.broke("F3: man<std::vector<M>>::%s not found (%d)" % (nm, len(ds)))
-            continue
-        d = ds[0]
-        loops = [x for x in A.walk(A.body(d.node)) if x.get("kind") == "CXXForRangeStmt"]
-        if len(loops) != 1:
-            rep.broke("F3: %s has %d range-for loops" % (nm, len(loops)))
-            continue
-        loop = loops[0]
-        ks = A.kids(loop)
-        # init-statement: cursor variable = 0
-        cursor = None
-        for c in ks:
-            if c.get("kind") == "DeclStmt":
-                for v in A.kids(c):
-                    if v.get("kind") == "VarDecl" and not (v.get("name") or "").startswith("__") and A.kids(v) and A.to_expr(A.kids(v)[-1]) == ("num", 0):
-                        cursor = v.get("name")
-        body = ks[-1]
-        segs = []
-        adv = []
-        locs = {}
-        elem = None
-        for c in ks:
-            if c.get("kind") == "DeclStmt":
-                for v in A.kids(c):
-                    if v.get("kind") in ("VarDecl", "DecompositionDecl") and not (v.get("name") or "__").startswith("__") and v.get("name") != cursor:
-                        elem = v.get("name")
-        for x in A.walk(body):
-            if x.get("kind") == "VarDecl" and A.kids(x):
-                locs[x.get("name")] = A.to_expr(A.kids(x)[-1])
-            if x.get("kind") in ("CallExpr", "CXXMemberCallExpr"):
-                e = A.to_expr(x)
-                if e[0] == "mcall" and e[2] == "segment":
-                    segs.append((e, x))
-            if x.get("kind") in ("CompoundAssignOperator", "CXXOperatorCallExpr", "BinaryOperator"):
-                e = A.to_expr(x)
-                if e[0] == "op" and e[1] == "+=" and e[2][0] == "ref" and e[2][1] == cursor:
-                    adv.append((e, x))
-        fl, ln = A.loc(loop)
-        ok = cursor is not None and len(segs) == 1 and len(adv) == 1
-        why = ""
-        if ok:
-            seg = segs[0][0]
-            start, length = seg[4][0], seg[4][1]
-            step = adv[0][0][3]
-            ok = start[0] == "ref" and start[1] == cursor and A.show(length) == A.show(step)
-            # the length is the dof of the current element
-            ldef = locs.get(length[1]) if length[0] == "ref" else length
-            okd = ldef is not None and ldef[0] in ("call", "mcall") and "dof" in str(ldef[1] if ldef[0] == "call" else ldef[2])
-            # advance happens after the segment use (statement order)
-            order_ok = A.loc(adv[0][1])[1] >= A.loc(segs[0][1])[1]
-            if not ok:
-                why = "segment(%s, %s) is followed by %s += %s" % (A.show(start), A.show(length), cursor, A.show(step))
-            elif not okd:
-                ok, why = False, "segment length `%s` is not the dof of the current element" % A.show(length)
-            elif not order_ok:
-                ok, why = False, "cursor advanced before the segment is used"
-        else:
-            why = "cursor=%s, %d segment accesses, %d cursor updates in the loop" % (cursor, len(segs), len(adv))
-        rep.instance("F3", "man<std::vector<M>>::" + nm, "segments", ok=ok, sample={"file": fe.rel(fl), "line": ln, "cursor": cursor})
-        if not ok:
-            rep.violation(Finding("F3", "man<std::vector<M>>::" + nm, "segments",
-                                  "container model does not act on consecutive tangent segments: " + why, fl, ln))
-
-
-def check_f4(rep, idx):
-    rep.rule("F4", "AnyManifold copies are deep (copy-ctor / copy-assignment go through clone(); clone copy-constructs a new wrapper)", minimum=3)
-    anyd = [d for d in idx if d.pattern and in_file(d, "manifolds/any.hpp")]
-    got = {"copy_ctor": None, "copy_assign": None, "clone": None}
-    for d in anyd:
-        if d.kind == "CXXConstructorDecl" and d.qname.startswith("AnyManifold"):
-            ps = A.params(d.node)
-            if len(ps) == 1 and re.sub(r"\s", "", ps[0].get("type", {}).get("qualType", "")) == "constAnyManifold&":
-                inits = [c for c in A.kids(d.node) if c.get("kind") == "CXXCtorInitializer" and c.get("anyInit", {}).get("name") == "m_val"]
-                it = "".join(A.ntext(k) for k in A.kids(inits[0])) if inits else ""
-                ok = bool(inits) and it == "m.m_val->clone()"
-                got["copy_ctor"] = (ok, d)
-        if d.kind == "CXXMethodDecl" and d.qname == "AnyManifold::operator=" and A.body(d.node) is not None:
-            ps = A.params(d.node)
-            if len(ps) == 1 and re.sub(r"\s", "", ps[0].get("type", {}).get("qualType", "")) == "constAnyManifold&":
-                t = A.ntext(A.body(d.node))
-                got["copy_assign"] = ("m_val=m.m_val->clone();" in t, d)
-        if d.kind == "CXXMethodDecl" and d.qname.endswith("wrapper::clone") and A.body(d.node) is not None:
-            t = A.ntext(A.body(d.node))
-            got["clone"] = (re.search(r"returnstd::make_unique<wrapper<M>>\(m_val\);", t) is not None, d)
-    for k, v in got.items():
-        if v is None:
-            rep.broke("F4: %s of AnyManifold not found" % k)
-            continue
-        ok, d = v
-        rep.instance("F4", "AnyManifold", k, ok=ok, sample={"file": fe.rel(d.file), "line": d.line})
-        if not ok:
-            rep.violation(Finding("F4", "AnyManifold", k, "%s does not produce an independent deep copy through clone()/copy-construction of the wrapped value" % k, d.file, d.line))
-
-
-# ---- F5: rminus(rplus(m, a), m) = a by term rewriting -------------------------------------------------------------------------
-
-class TErr(Exception):
-    pass
-
-
-def _fname(e):
-    return str(e[1]).split("::")[-1].split("<")[0]
-
-
-def check_f5(rep, idx_lie, idx_sub):
-    """The defining axiom of a manifold model, decided symbolically.
-    LieGroup model: rplus(g, a) = g * exp(a) and rminus(g1, g2) = log(g2^-1 * g1); substituting, rminus(rplus(g, a), g) must reduce to
-    log(exp(a)) in the free group on every return path (a shortcut such as log(g1) - log(g2) is not an identity: it fails to wrap).
-    SubManifold model over an abstract M with the axiom rminus_M(rplus_M(x, s), x) = s: (m (+) a) (-) m must be gather(scatter(a))."""
-    import c14
-    rep.rule("F5", "rminus(rplus(m, a), m) reduces to a: LieGroup model in the free group, SubManifold over an abstract manifold", minimum=2)
-    # --- LieGroup model
-    mans = [d for d in idx_lie if d.kind in A.FUNCS and d.pattern and d.file and d.file.endswith("concepts/lie_group.hpp") and A.body(d.node) is not None
-            and d.qname.split("::")[-1] in ("rplus", "rminus")]
-    byname = {}
-    for d in mans:
-        byname.setdefault(d.qname.split("::")[-1], []).append(d)
-    if len(byname.get("rplus", [])) != 1 or len(byname.get("rminus", [])) != 1:
-        rep.broke("F5: traits::man<LieGroup>::rplus / rminus not found (%s)" % {k: len(v) for k, v in byname.items()})
-    else:
-        rp, rm = byname["rplus"][0], byname["rminus"][0]
-        pg, pa = [p.get("name") for p in A.params(rp.node)]
-
-        def gw(e, env):
-            if e[0] == "ref":
-                if e[1] in env:
-                    return list(env[e[1]])
-                raise TErr("name %s" % e[1])
-            if e[0] == "call":
-                f = _fname(e)
-                if f == "composition":
-                    out = []
-                    for a in e[2]:
-                        out += gw(a, env)
-                    return c14.fg_reduce(out)
-                if f == "inverse" and len(e[2]) == 1:
-                    return c14.fg_inv(gw(e[2][0], env))
-                if f == "exp" and len(e[2]) == 1 and e[2][0][0] == "ref" and e[2][0][1] in env and env[e[2][0][1]] == "TANGENT":
-                    return [("exp(a)", 1)]
-            if e[0] == "op" and e[1] == "*":
-                return c14.fg_reduce(gw(e[2], env) + gw(e[3], env))
-            raise TErr("group expression %s" % A.show(e)[:50])
-        try:
-            rets = [A.to_expr(A.kids(x)[0]) for x in A.walk_nolambda(A.body(rp.node)) if x.get("kind") == "ReturnStmt"]
-            if len(rets) != 1:
-                raise TErr("rplus has %d returns" % len(rets))
-            plus = gw(rets[0], {pg: [("g", 1)], pa: "TANGENT"})
-            p1, p2 = [p.get("name") for p in A.params(rm.node)]
-            bad = None
-            nret = 0
-            for x in A.walk_nolambda(A.body(rm.node)):
-                if x.get("kind") != "ReturnStmt":
-                    continue
-                nret += 1
-                e = A.to_expr(A.kids(x)[0])
-                if e[0] == "call" and _fname(e) == "log" and len(e[2]) == 1:
-                    w = gw(e[2][0], {p1: plus, p2: [("g", 1)]})
-                    if w != [("exp(a)", 1)] and bad is None:
-                        bad = (x, "log(%s)" % (" ".join("%s%s" % (s_, "" if k_ == 1 else "^-1") for s_, k_ in w) or "1"))
-                else:
-                    if bad is None:
-                        bad = (x, A.show(e)[:80])
-            if nret == 0:
-                raise TErr("rminus has no return")
-            rep.instance("F5", "traits::man<LieGroup>", "rminus(rplus(g, a), g)", ok=bad is None, sample={"file": fe.rel(rm.file), "line": rm.line, "rplus": "g exp(a)", "returns": nret})
-            if bad:
-                f, l = A.loc(bad[0])
-                rep.violation(Finding("F5", "traits::man<LieGroup>::rminus", "axiom",
-                                      "with rplus(g, a) = g * exp(a), one return path of rminus evaluates rminus(rplus(g, a), g) as %s, which does not reduce to log(exp(a)) = a "
-                                      "in the free group (the difference of two logarithms is not the logarithm of the quotient: angles do not wrap)" % bad[1], f, l))
-        except TErr as ex:
-            rep.broke("F5: cannot interpret traits::man<LieGroup>::rplus / rminus: %s" % ex)
-    # --- SubManifold
-    sub = {}
-    for d in idx_sub:
-        if d.kind in A.FUNCS and d.pattern and d.file and d.file.endswith("submanifold.hpp") and A.body(d.node) is not None and d.qname in ("SubManifold::rplus", "SubManifold::rminus"):
-            sub[d.qname.split("::")[-1]] = d
-    if set(sub) != {"rplus", "rminus"}:
-        rep.broke("F5: SubManifold::rplus / rminus not found")
-        return
-    try:
-        # rplus: new value = man<M>::rplus(m_m, S) where S is the scattered tangent (a local filled from `a` by the F2 loop)
-        rp = sub["rplus"]
-        ret = [A.to_expr(A.kids(x)[0]) for x in A.walk_nolambda(A.body(rp.node)) if x.get("kind") == "ReturnStmt"]
-        if len(ret) != 1:
-            raise TErr("rplus has %d returns" % len(ret))
-        args = ret[0][2] if ret[0][0] in ("ctor", "call") else (ret[0][1] if ret[0][0] == "init" else None)
-        if not args or len(args) != 3:
-            raise TErr("rplus does not return SubManifold(m0, value, fixed_dims): %s" % A.show(ret[0])[:60])
-        val = args[1]
-        vargs = val[2] if val[0] == "call" else (val[4] if val[0] == "mcall" else None)
-        vname = _fname(val) if val[0] == "call" else (val[2] if val[0] == "mcall" else None)
-        if not (vname == "rplus" and vargs and len(vargs) == 2 and A.show(vargs[0]).endswith("m_m") and vargs[1][0] == "ref"):
-            raise TErr("new value is %s" % A.show(val)[:60])
-        scat = vargs[1][1]
-        origin_kept = A.show(args[0]).endswith("m_m0")
-        # rminus: gather(T) with T a local initialised by an expression in man<M>::rminus
-        rm = sub["rminus"]
-        other = [p.get("name") for p in A.params(rm.node)][0]
-        locs = {}
-        for x in A.walk_nolambda(A.body(rm.node)):
-            if x.get("kind") == "VarDecl" and A.kids(x):
-                locs[x.get("name")] = A.to_expr(A.kids(x)[-1])
-        gathered = None
-        for x in A.walk_nolambda(A.body(rm.node)):
-            if x.get("kind") in ("BinaryOperator", "CXXOperatorCallExpr"):
-                e = A.to_expr(x)
-                if e[0] == "op" and e[1] == "=" and e[3][0] in ("call", "sub") and isinstance(e[3][1], (str, tuple)):
-                    src = e[3][1] if isinstance(e[3][1], str) else (e[3][1][1] if e[3][1][0] == "ref" else None)
-                    if src in locs:
-                        gathered = src
-        if gathered is None:
-            raise TErr("rminus does not gather from a local tangent")
-
-        def term(e):
-            """normal form over an abstract manifold: 'S' (the scattered tangent), or a structured term"""
-            eargs = e[2] if e[0] == "call" else (e[4] if e[0] == "mcall" else None)
-            ename = _fname(e) if e[0] == "call" else (e[2] if e[0] == "mcall" else None)
-            if ename == "rminus" and eargs and len(eargs) == 2:
-                x_, y_ = val_of(eargs[0]), val_of(eargs[1])
-                if x_ == ("rplus", "m", "S") and y_ == "m":
-                    return "S"
-                return ("rminus", x_, y_)
-            if e[0] == "op" and e[1] in ("+", "-"):
-                return (e[1], term(e[2]), term(e[3]))
-            if e[0] == "ref" and e[1] in locs:
-                return term(locs[e[1]])
-            raise TErr("tangent expression %s" % A.show(e)[:60])
-
-        def val_of(e):
-            t = A.show(e)
-            if t.endswith("m_m0") or t.endswith("m0()"):
-                return "m0"
-            if t in ("this.m_m", "m_m") or t.endswith("this.m_m"):
-                return ("rplus", "m", "S")      # this = m (+) a
-            if t in ("%s.m()" % other, "%s.m_m" % other):
-                return "m"                       # other = m
-            raise TErr("value expression %s" % t[:40])
-        nf = term(locs[gathered])
-        ok = nf == "S" and origin_kept
-
-        def show(t):
-            if isinstance(t, tuple):
-                if t[0] in ("+", "-"):
-                    return "(%s %s %s)" % (show(t[1]), t[0], show(t[2]))
-                return "%s(%s)" % (t[0], ", ".join(show(x) for x in t[1:]))
-            return {"S": "scatter(a)", "m": "m", "m0": "m0"}.get(t, str(t))
-        rep.instance("F5", "SubManifold", "rminus(rplus(m, a), m)", ok=ok, sample={"file": fe.rel(rm.file), "line": rm.line, "normal_form": "gather(%s)" % show(nf)})
-        if not ok:
-            rep.violation(Finding("F5", "SubManifold::rminus", "axiom",
-                                  "over an abstract manifold M, (m (+) a) (-) m evaluates gather(%s)%s; only gather(scatter(a)) = a follows from M's own axiom "
-                                  "rminus(rplus(x, s), x) = s (differences taken in the coordinates of another point are not additive on curved manifolds)"
-                                  % (show(nf), "" if origin_kept else " and rplus does not keep the origin m0"), rm.file, rm.line))
-    except TErr as ex:
-        rep.broke("F5: cannot interpret SubManifold::rplus / rminus: %s" % ex)
-
-
-def check_f6(rep, idx_vec):
-    """F6: dof of the std::vector<M> model is the sum of the element dofs: for static Dof size * Dof, otherwise an accumulation of dof(item) over
-    all items -- the tangent length F3's cursor arithmetic consumes and produces."""
-    rep.rule("F6", "traits::man<std::vector<M>>::dof = sum of the element dofs", minimum=1)
-    fns = [d for d in idx_vec if d.kind in A.FUNCS and d.pattern and d.file and d.file.endswith("manifolds/vector.hpp") and A.body(d.node) is not None
-           and d.qname.split("::")[-1] == "dof"]
-    if len(fns) != 1:
-        rep.broke("F6: traits::man<std::vector<M>>::dof not found (%d)" % len(fns))
-        return
-    d = fns[0]
-    ifs = [x for x in A.kids(A.body(d.node)) if x.get("kind") == "IfStmt"]
-    if len(ifs) != 1 or len(A.kids(ifs[0])) != 3:
-        rep.broke("F6: dof is no longer `if constexpr (Dof > 0) size*Dof else accumulate`")
-        return
-    ks = A.kids(ifs[0])
-    ctext = A.ntext(ks[0])
-    stat, dyn = (ks[1], ks[2]) if (">0" in ctext.replace(" ", "") or "!=-1" in ctext.replace(" ", "")) else (ks[2], ks[1])
-    dt = A.ntext(dyn)
-    sums_all = ("accumulate(" in dt and "dof(item)" in dt.replace(" ", "").replace("traits::man<M>::", "").replace("::smooth::", "").replace("dof<M>", "dof")) or \
-               (("for(" in dt or "for (" in dt) and "+=" in dt and "dof" in dt)
-    uses_front = "front()" in dt or "[0]" in dt or "begin()" in dt and "accumulate" not in dt
-    f, l = A.loc(dyn)
-    if sums_all and not uses_front:
-        rep.instance("F6", "traits::man<std::vector<M>>::dof", "dynamic", ok=True, sample={"file": fe.rel(f), "line": l})
-    elif uses_front and not sums_all:
-        rep.instance("F6", "traits::man<std::vector<M>>::dof", "dynamic", ok=False, sample={"file": fe.rel(f), "line": l})
-        rep.violation(Finding("F6", "traits::man<std::vector<M>>::dof", "dynamic",
-                              "for elements of dynamic size the dof is computed from one element (`%s`) instead of summing dof(item) over all items: containers whose "
-                              "elements have different run-time sizes get a dof that differs from the tangent length rplus consumes and rminus returns" % dt[:90], f, l))
-    else:
-        rep.broke("F6: dynamic-size branch `%s` not recognised" % dt[:80])
+The models SubManifold, std::vector<M>, the LieGroup adapter and AnyManifold are abstractly executed over an abstract underlying manifold
+(props/manim.py, rules F.sub, F.vec, F.lie, F.any)."""
+import manim
 
 
 def check(rep, tier, replay=None):
     rep.explanations.append(
-        "C07: structural necessary conditions of the manifold axioms for the container/adaptor models: constructor-field "
-        "correspondence wherever SubManifold is rebuilt from its parts, the scatter/gather index loops decided by abstract execution "
-        "over every fixed-dimension subset of manifolds with up to 5 dof, consecutive-segment bookkeeping of std::vector<M>, deep copy of AnyManifold.")
-    rep.trusted.update(["clang++-16 front end", "lib/pe.py Exec (integer index machine)"])
-    rep.assumptions.append("numerical axioms rminus(rplus(m,a),m)=a etc. rest on C02 and are not decided")
-    d = fe.ast_dumps(["SubManifold", "AnyManifold", "traits::man<"])
-    rep.unit("umbrella TU filtered SubManifold / AnyManifold / traits::man<")
-    idx_s = A.index(d["SubManifold"])
-    check_f1(rep, idx_s)
-    check_f2(rep, idx_s)
-    check_f3(rep, A.index(d["traits::man<"]))
-    check_f4(rep, A.index(d["AnyManifold"]))
-    idx_m = A.index(d["traits::man<"])
-    check_f5(rep, idx_m, idx_s)
-    check_f6(rep, idx_m)
+        "C07: the container / adaptor Manifold models are abstractly executed (engine M) over an uninterpreted underlying manifold whose only law is its own axiom "
+        "rminus(rplus(x, v), x) = v: SubManifold for every dof 0..5 and every fixed set (scatter / gather bijection, dof, axiom, cast roles), std::vector<M> for static "
+        "and run-time element dofs (consecutive segments, concatenation, dof sum, axiom), the LieGroup adapter in the free group with exp / log as inverse symbols, "
+        "AnyManifold (deep, independent copies; delegation to the payload).")
+    rep.trusted.update(["clang++-16 front end", "lib/mach.py (abstract machine) with models of Eigen vectors / segments, std::vector, std::unique_ptr"])
+    rep.assumptions.append("the axioms of the underlying manifolds themselves (numerical, C02) are the premise, not decided here; std::variant<Ms...> dispatches with std::visit and is not executed")
+    rep.unit("umbrella TU filtered SubManifold / AnyManifold / man")
+    manim.check(rep, tier)
